@@ -675,6 +675,9 @@ func (r *c15Runner) exec(o *Oracle) string {
 			o.Count("tx-success")
 		} else {
 			o.Count(fmt.Sprintf("tx-fail-status-%d", info.status))
+			if info.status == int(module.StatusOutOfBalance) && r.env.cfg.legacy == 2 {
+				o.Count("legacy-balance-check-out-of-balance")
+			}
 			o.Check(nlogs == 0, "failed-receipt-has-event-logs", "tx %d status %d carries %d event logs", i, info.status, nlogs)
 			o.Check(nbtp == 0, "failed-receipt-has-btp-messages", "tx %d status %d carries %d BTP messages", i, info.status, nbtp)
 		}
@@ -828,6 +831,26 @@ func c15GenCase(g *Gen, failBias bool) {
 	}
 	if nf > 0 {
 		g.Emit("exec")
+	}
+	if (legacy == 2 && g.Intn(2) == 0) || g.Intn(12) == 0 {
+		// directed (bites with the legacy balance check, which looks at the block's initial
+		// snapshot): account 4 spends nearly everything, gets credited by PreValidate with a
+		// value a failing program never delivers, then runs a transaction that succeeds but
+		// cannot pay its fee -> "rollback all changes" branch of Execute
+		a := 1 + g.Intn(3)
+		rest := int64(g.Intn(int(2*dflt*price + 2)))
+		v1 := known[4] - dflt*price - rest
+		nb := c15InputBytes("c", "f1")
+		limc := dflt + input*int64(nb)
+		credit := 2*dflt*price + int64(g.Intn(5))
+		if v1 >= 0 && known[a] >= credit+limc*price {
+			g.Emit("tx t 4 %d %d %d", 1+g.Intn(3), v1, dflt)
+			g.Emit("tx c %d 4 %d %d %d f1", a, credit, limc, nb)
+			g.Emit("tx t 4 %d %d %d", 1+g.Intn(3), g.Pick(0, 0, 1, int(rest/2+1)), dflt)
+			g.Emit("exec")
+			known[a] -= credit + limc*price
+			known[4] = 0
+		}
 	}
 	nblocks := 2 + g.Intn(5)
 	for b := 0; b < nblocks; b++ {
